@@ -6,6 +6,7 @@ import (
 	"go/ast"
 	"go/parser"
 	"go/token"
+	"sort"
 	"strings"
 	"time"
 
@@ -485,5 +486,126 @@ func init() {
 			}
 		}
 		return ""
+	}
+}
+
+// c14Package: Apply rooted at a package. The files are visited in the order of their keys (as astutil
+// does), Delete and Replace act on the Files map; compared with astutil on the ast.Package.
+func c14Package(c *Ctx) {
+	srcs := map[string]string{
+		"gen/zz_types.go":      "package p\n\ntype T int\n",
+		"internal/aa_funcs.go": "package p\n\nfunc F() {}\n",
+		"main.go":              "package p\n\nvar V = 1\n",
+		"a/x.go":               "package p\n\nvar A = 2\n",
+		"b/x.go":               "package p\n\nvar B = 3\n",
+	}
+	type script struct {
+		name     string
+		deleteAt int // delete the k-th file visited (pre), -1: none
+		replace  int // replace the k-th file visited by an empty file, -1: none
+		stopAt   int // post returns false at the k-th file, -1: never
+	}
+	var scripts []script
+	for d := -1; d < len(srcs); d++ {
+		for s := -1; s < len(srcs); s++ {
+			scripts = append(scripts, script{fmt.Sprintf("delete@%d stop@%d", d, s), d, -1, s})
+		}
+		scripts = append(scripts, script{fmt.Sprintf("replace@%d", d), -1, d, -1})
+	}
+	for _, sc := range scripts {
+		fset := token.NewFileSet()
+		apkg := &ast.Package{Name: "p", Files: map[string]*ast.File{}}
+		for name, src := range srcs {
+			af, err := parser.ParseFile(fset, name, src, 0)
+			if err != nil {
+				c.Infra("package source does not parse")
+				return
+			}
+			apkg.Files[name] = af
+		}
+		d := decorator.NewDecorator(fset)
+		dn, err := d.DecorateNode(apkg)
+		if err != nil {
+			c.Infra("package does not decorate: " + err.Error())
+			return
+		}
+		dpkg := dn.(*dst.Package)
+		dname := map[dst.Node]string{}
+		for k, f := range dpkg.Files {
+			dname[f] = k
+		}
+		aname := map[ast.Node]string{}
+		for k, f := range apkg.Files {
+			aname[f] = k
+		}
+		var dlog, alog []string
+		dk, ak := 0, 0
+		dres := guard(func() {
+			dstutil.Apply(dpkg, func(cur *dstutil.Cursor) bool {
+				if f, ok := cur.Node().(*dst.File); ok && cur.Name() == "Files" {
+					dlog = append(dlog, "pre "+dname[f])
+					if dk == sc.deleteAt {
+						cur.Delete()
+						dlog = append(dlog, "delete")
+					}
+					if dk == sc.replace {
+						cur.Replace(&dst.File{Name: dst.NewIdent("p")})
+						dlog = append(dlog, "replace")
+					}
+				}
+				return true
+			}, func(cur *dstutil.Cursor) bool {
+				if f, ok := cur.Node().(*dst.File); ok && cur.Name() == "Files" {
+					dlog = append(dlog, "post "+dname[f])
+					dk++
+					return dk-1 != sc.stopAt
+				}
+				return true
+			})
+		})
+		ares := guard(func() {
+			astutil.Apply(apkg, func(cur *astutil.Cursor) bool {
+				if f, ok := cur.Node().(*ast.File); ok && cur.Name() == "Files" {
+					alog = append(alog, "pre "+aname[f])
+					if ak == sc.deleteAt {
+						cur.Delete()
+						alog = append(alog, "delete")
+					}
+					if ak == sc.replace {
+						cur.Replace(&ast.File{Name: ast.NewIdent("p")})
+						alog = append(alog, "replace")
+					}
+				}
+				return true
+			}, func(cur *astutil.Cursor) bool {
+				if f, ok := cur.Node().(*ast.File); ok && cur.Name() == "Files" {
+					alog = append(alog, "post "+aname[f])
+					ak++
+					return ak-1 != sc.stopAt
+				}
+				return true
+			})
+		})
+		var dkeys, akeys []string
+		for k, f := range dpkg.Files {
+			dkeys = append(dkeys, fmt.Sprintf("%s:%d", k, len(f.Decls)))
+		}
+		for k, f := range apkg.Files {
+			akeys = append(akeys, fmt.Sprintf("%s:%d", k, len(f.Decls)))
+		}
+		sort.Strings(dkeys)
+		sort.Strings(akeys)
+		key := "package|" + sc.name
+		c.Eval(key, sc.deleteAt >= 0 || sc.replace >= 0 || sc.stopAt >= 0)
+		if ares != "" {
+			continue // astutil itself refuses the script: nothing to compare
+		}
+		got := strings.Join(dlog, ", ") + " => " + strings.Join(dkeys, " ")
+		want := strings.Join(alog, ", ") + " => " + strings.Join(akeys, " ")
+		if dres != "" {
+			c.Fail(Finding{Sig: "package-apply-panics", Input: key, What: "dstutil.Apply on a package panics where astutil.Apply does not: " + dres, Replay: obj{"kind": "none"}})
+		} else if got != want {
+			c.Fail(Finding{Sig: "package-apply-differs-from-astutil", Input: key, What: fmt.Sprintf("astutil: %s\ndstutil: %s", want, got), Replay: obj{"kind": "none"}})
+		}
 	}
 }
